@@ -157,15 +157,24 @@ def run(ctx):
     for sp in spl:
         sp['opts']['split'] = {'h': '3h', '30min': '2h'}[sp['grid']['freq']]
     specs += spl
+    # take periods of contracts that start after the grid start, on daily grids with a day of 23 h / 25 h
+    specs += gen.gen_many(ctx.seed, n // 4, dict(CFG, freqs=['d'], tzs=['CET'], p_dst=1.0, T=(4, 8), p_coarse=0.0, p_periodic=0.0, p_window=0.9, window_kinds=['right', 'inside', 'right'],
+                                                 kinds={'Contract': 4, 'ExtendedTransport': 1, 'SimpleContract': 1}, nodes=(1, 2), n_assets=(1, 3)), 'c12tk_')
     # plants (unit commitment): minimum run / down times and the time already running / off are durations in the main time unit
     # (described in hours, re-expressed in minutes: exact in floating point)
     pl = gen.gen_many_plants(ctx.seed, n // 3, dict(CFG, freqs=['h', '30min', '15min'], units=['h'], tzs=[None], T=(5, 9), p_unaligned_end=0.0, p_profile=0.0, p_fuel=0.0, p_chp=0.0,
                                                     p_coarse=0.0, p_periodic=0.0, p_cap_dict=0.0), 'c12p_')
-    for sp in pl:
+    for i_, sp in enumerate(pl):
         for a in sp['assets']:
             if a['kind'] == 'Plant':
                 for key in ('ramp', 'last_dispatch', 'running_costs'):
                     a.pop(key, None)
+                if sp['grid']['freq'] != 'h' and i_ % 2:
+                    # durations of at most one main time unit that span several steps
+                    if 'min_downtime' in a:
+                        a['min_downtime'] = [1, 0.5][i_ % 4 // 2] if sp['grid']['freq'] == '15min' else 1
+                    if 'min_runtime' in a:
+                        a['min_runtime'] = 1
         sp['opts']['new_unit'] = 'min'
     specs += [sp for sp in pl if all(a['kind'] != 'Storage' or True for a in sp['assets'])]
     specs = ctx.specs(specs)
